@@ -78,6 +78,27 @@ Theorem C06_drop_whole : forall N MM frame wf, 0 < N -> frame_ok frame wf ->
   Forall (fun m => zlen m <= MM) (acc s).
 Proof. exact top_drop_whole. Qed.
 
+(* a message is dropped only for the two reasons the property names: longer than
+   MaxMsg, or no room in the free space when the writer loads read ("none is
+   lost") *)
+Theorem C06_drop_only_if : forall N MM frame wf, 0 < N -> frame_ok frame wf ->
+  forall ws rs sched, script_ok wf ws ->
+  let s := reach N MM frame ws rs sched in
+  forall m, out (wstep N MM s) = out s ++ [ODrop m] ->
+  MM < zlen m \/ N - 1 - (Wv s - Rv s) < zlen m.
+Proof. exact top_drop_reason. Qed.
+
+(* hasNext that is not overtaken by a publishing store answers false exactly
+   when everything accepted has been consumed (looked at, for the lookahead
+   flavour) *)
+Theorem C06_hasnext_exact : forall N MM frame wf, 0 < N -> frame_ok frame wf ->
+  forall ws rs sched, script_ok wf ws ->
+  let s := reach N MM frame ws rs sched in
+  forall la try, rp s = RHasW la try ->
+  out (rstep N MM frame (rstep N MM frame s)) =
+  out s ++ [OHas la (j0 s la <? length (acc s))%nat (length (acc s)) (cons s) (peek s)].
+Proof. exact top_hasnext_exact. Qed.
+
 (* data-race freedom: the buffer cell the writer is about to store to is never
    one the reader is about to load *)
 Theorem C06_drf : forall N MM frame wf, 0 < N -> frame_ok frame wf ->
